@@ -11,11 +11,11 @@ Proof. intros. apply rt1n_refl. Qed.
 Lemma conn_trans : forall G S x y z, conn G S x y -> conn G S y z -> conn G S x z.
 Proof.
   unfold conn. intros G S x y z A B. induction A as [|x y' y Hs A IH]; [exact B|].
-  eapply rt1n_trans; [exact Hs|]. apply IH. exact B.
+  eapply Relation_Operators.rt1n_trans; [exact Hs|]. apply IH. exact B.
 Qed.
 
 Lemma conn_step : forall G S x y, step G S x y -> conn G S x y.
-Proof. intros. eapply rt1n_trans; [eassumption|apply rt1n_refl]. Qed.
+Proof. intros. eapply Relation_Operators.rt1n_trans; [eassumption|apply rt1n_refl]. Qed.
 
 Lemma step_sym : forall G S x y, step G S x y -> step G S y x.
 Proof. intros G S x y (a & b & c). repeat split; auto. rewrite adj_sym. exact c. Qed.
